@@ -210,7 +210,7 @@ def main():
     chk.bounds = {"base_problems": 9, "twins_per_base_problem": len(priors) * len(dus) * len(libs)}
     chk.merge(core.parallel(shard, core.interleave(items, core.NPROC * 2), quick=chk.quick, seed=chk.seed))
     chk.assumptions += ["astropy unit conversion is trusted", "the canonical twin's own values are validated against the closed form by C01"]
-    return chk.finish()
+    return chk.finish(run_case)
 
 
 def replay(doc):
